@@ -228,7 +228,11 @@ pub fn run_case(case: &Case, name: &str) -> Outcome {
                 *n += 1;
                 if *n > spec.per_address_limit as u64 {
                     let by_string = successes_str[&op.eth_address] > spec.per_address_limit as u64;
-                    if by_string {
+                    // the known shape, exactly: the list itself holds this address under several
+                    // spellings and every successful spelling is one of those list entries
+                    let spellings_on_list = spec.list.iter().filter(|l| eth_identity(l) == ident).collect::<BTreeSet<_>>();
+                    let all_listed = successes_str.keys().filter(|s| eth_identity(s) == ident).all(|s| spec.list.contains(s));
+                    if by_string || spellings_on_list.len() < 2 || !all_listed {
                         viol("C16:limit-exceeded", format!("{} claimed {} times, limit {}", op.eth_address, *n, spec.per_address_limit));
                     } else {
                         viol(
@@ -389,6 +393,30 @@ fn gen_cases(a: &Args) -> Vec<Case> {
                 op(w1, &lower(1), &s10, "replay-other-wallet"),
             ],
         });
+        // signatures by the right key over the wrong text: the bare template, the text with
+        // the Ethereum address / nothing / another wallet spliced in, a neighbouring text
+        let spec2 = WorldSpec::basic(vec![lower(0), lower(1)], 3);
+        let mut ops = vec![];
+        for (text, tag) in [
+            (spec2.template.clone(), "sig-over-bare-template"),
+            (spec2.template.replace("{wallet}", &lower(0)), "sig-over-text-with-eth-address"),
+            (spec2.template.replace("{wallet}", ""), "sig-over-text-without-wallet"),
+            (spec2.template.replace("{wallet}", w1), "replay-other-wallet"),
+            (format!("{} ", text_for(&spec2, w0)), "sig-over-neighbouring-text"),
+            (text_for(&spec2, w0).to_uppercase(), "sig-over-neighbouring-text"),
+            (text_for(&spec2, w0)[1..].to_string(), "sig-over-neighbouring-text"),
+            ("".to_string(), "sig-over-empty-text"),
+        ] {
+            ops.push(op(w0, &lower(0), &hex::encode(personal_sign(&k[0], &text)), tag));
+        }
+        // a raw (not personal-sign prefixed) signature over keccak(text)
+        {
+            let h = ind_keccak(text_for(&spec2, w0).as_bytes());
+            let sig = k[0].wallet.sign_hash(ethers_core::types::H256::from(h));
+            ops.push(op(w0, &lower(0), &hex::encode(sig.to_vec()), "sig-without-eth-prefix"));
+        }
+        ops.push(op(w0, &lower(0), &hex::encode(valid_sig(&spec2, &k[0], w0)), "valid"));
+        cases.push(Case { label: "corpus:wrong-text".into(), spec: spec2, ops });
         for limit in [0u32, 2, 3] {
             let mut spec = WorldSpec::basic(vec![lower(0), lower(1), lower(2)], limit);
             spec.template = TEMPLATES[2].into();
